@@ -93,7 +93,9 @@ func (w *World) SeedStandard() *Std { return w.SeedStandardAt(D("5")) }
 // SeedStandardAt: the same world with another ATOM price (pool compositions follow the price, so every pool starts
 // balanced by value). A price below 1 makes one base unit of uatom worth less than one of uusdc: conversions of dust
 // then truncate to zero.
-func (w *World) SeedStandardAt(atomPrice math.LegacyDec) *Std { return w.SeedStandardWith(atomPrice, "uusdc") }
+func (w *World) SeedStandardAt(atomPrice math.LegacyDec) *Std {
+	return w.SeedStandardWith(atomPrice, "uusdc")
+}
 
 // SeedStandardWith: the same world with USDC living under `usdc` on the chain (asset-profile entry BaseDenom "uusdc", Denom usdc).
 func (w *World) SeedStandardWith(atomPrice math.LegacyDec, usdc string) *Std {
